@@ -29,9 +29,9 @@ type fakePeer struct {
 	id string
 }
 
-func (p *fakePeer) Id() string                                              { return p.id }
-func (p *fakePeer) AcquireDrpcConn(ctx context.Context) (drpc.Conn, error)   { return nil, nil }
-func (p *fakePeer) ReleaseDrpcConn(ctx context.Context, conn drpc.Conn)      {}
+func (p *fakePeer) Id() string                                                 { return p.id }
+func (p *fakePeer) AcquireDrpcConn(ctx context.Context) (drpc.Conn, error)     { return nil, nil }
+func (p *fakePeer) ReleaseDrpcConn(ctx context.Context, conn drpc.Conn)        {}
 func (p *fakePeer) DoDrpc(ctx context.Context, do func(drpc.Conn) error) error { return do(nil) }
 
 type wireStats struct {
